@@ -208,6 +208,7 @@ def main():
         },
         "engines": [
             {"name": "tlc", "path": "/opt/veriftools/tla/tla2tools.jar", "serves_properties": sorted(CHECKS), "kind_free_text": "TLC 1.8.0 explicit-state model checker for the TLA+ specifications under /verif/spec; also used for trace validation"},
+            {"name": "apalache", "path": "/opt/veriftools/apalache", "serves_properties": ["C10"], "kind_free_text": "Apalache 0.58.0 symbolic model checker: inductive-invariant check of the data-array capacity discipline (module generated from spec/DataArrayOps.tla by tools/c10_ind_gen.py)"},
         ],
         "checks": checks,
         "not_applicable": na,
